@@ -8,7 +8,7 @@
    Output: the list of (rule, position) in the order of the r.errorf calls.
    Not modelled: binding indices, free-variable capture, the spell-check hint,
    REPL globals (isGlobal = nil).  No proofs here. *)
-From Coq Require Import String Ascii List Bool Arith.
+From Coq Require Import String Ascii List Bool Arith NArith.
 From SV Require Import C09.Syntax.
 Import ListNotations.
 
@@ -22,11 +22,12 @@ Record blk := {
   k_memo : list string          (* non-local bindings entered by lookupLexical *)
 }.
 
-Record use := { u_name : string; u_node : nat; u_env : option nat }.
+Record use := { u_name : string; u_node : N; u_env : option nat }.
 
 Record rs := {
   loops : nat; ifstmts : nat;
-  errs : list (rule * nat);
+  fdepth : nat;                              (* number of enclosing function blocks: container().function != nil iff > 0 *)
+  errs : list (rule * N);
   blocks : list blk;
   env : option nat;
   globals : list string;
@@ -39,32 +40,36 @@ Section Resolver.
 Variable opts : options.
 Variable W : world.
 
-Definition errorf (st : rs) (r : rule) (n : nat) : rs :=
-  {| loops := loops st; ifstmts := ifstmts st; errs := errs st ++ [(r, n)]; blocks := blocks st;
+Definition errorf (st : rs) (r : rule) (n : N) : rs :=
+  {| loops := loops st; ifstmts := ifstmts st; fdepth := fdepth st; errs := errs st ++ [(r, n)]; blocks := blocks st;
      env := env st; globals := globals st; fileb := fileb st; premem := premem st; buses := buses st |}.
 
 Definition set_loops (st : rs) (k : nat) : rs :=
-  {| loops := k; ifstmts := ifstmts st; errs := errs st; blocks := blocks st;
+  {| loops := k; ifstmts := ifstmts st; fdepth := fdepth st; errs := errs st; blocks := blocks st;
      env := env st; globals := globals st; fileb := fileb st; premem := premem st; buses := buses st |}.
 
 Definition set_ifstmts (st : rs) (k : nat) : rs :=
-  {| loops := loops st; ifstmts := k; errs := errs st; blocks := blocks st;
+  {| loops := loops st; ifstmts := k; fdepth := fdepth st; errs := errs st; blocks := blocks st;
+     env := env st; globals := globals st; fileb := fileb st; premem := premem st; buses := buses st |}.
+
+Definition set_fdepth (st : rs) (k : nat) : rs :=
+  {| loops := loops st; ifstmts := ifstmts st; fdepth := k; errs := errs st; blocks := blocks st;
      env := env st; globals := globals st; fileb := fileb st; premem := premem st; buses := buses st |}.
 
 Definition set_env (st : rs) (e : option nat) : rs :=
-  {| loops := loops st; ifstmts := ifstmts st; errs := errs st; blocks := blocks st;
+  {| loops := loops st; ifstmts := ifstmts st; fdepth := fdepth st; errs := errs st; blocks := blocks st;
      env := e; globals := globals st; fileb := fileb st; premem := premem st; buses := buses st |}.
 
 Definition set_blocks (st : rs) (b : list blk) : rs :=
-  {| loops := loops st; ifstmts := ifstmts st; errs := errs st; blocks := b;
+  {| loops := loops st; ifstmts := ifstmts st; fdepth := fdepth st; errs := errs st; blocks := b;
      env := env st; globals := globals st; fileb := fileb st; premem := premem st; buses := buses st |}.
 
 Definition set_scope (st : rs) (g f p : list string) : rs :=
-  {| loops := loops st; ifstmts := ifstmts st; errs := errs st; blocks := blocks st;
+  {| loops := loops st; ifstmts := ifstmts st; fdepth := fdepth st; errs := errs st; blocks := blocks st;
      env := env st; globals := g; fileb := f; premem := p; buses := buses st |}.
 
 Definition add_use (st : rs) (c : option nat) (u : use) : rs :=
-  {| loops := loops st; ifstmts := ifstmts st; errs := errs st; blocks := blocks st;
+  {| loops := loops st; ifstmts := ifstmts st; fdepth := fdepth st; errs := errs st; blocks := blocks st;
      env := env st; globals := globals st; fileb := fileb st; premem := premem st;
      buses := buses st ++ [(c, u)] |}.
 
@@ -87,7 +92,8 @@ Fixpoint container_from (fuel : nat) (bl : list blk) (e : option nat) : option n
       end
   end.
 Definition container (st : rs) : option nat := container_from (length (blocks st)) (blocks st) (env st).
-Definition in_function (st : rs) : bool := match container st with Some _ => true | None => false end.
+(* container().function != nil; the depth counter is kept in step with push/pop of function blocks *)
+Definition in_function (st : rs) : bool := 0 <? fdepth st.
 
 (* push(&block{...}) / pop() *)
 Definition push (st : rs) (isfn : bool) : rs :=
@@ -104,7 +110,7 @@ Definition pop (st : rs) : rs :=
   end.
 
 (* useToplevel: file-local, global, predeclared, universal, or undefined *)
-Definition useToplevel (st : rs) (n : nat) (x : string) : rs :=
+Definition useToplevel (st : rs) (n : N) (x : string) : rs :=
   if mem x (fileb st) then st
   else if mem x (globals st) then st
   else if mem x (premem st) then st
@@ -114,13 +120,13 @@ Definition useToplevel (st : rs) (n : nat) (x : string) : rs :=
     set_scope st (globals st) (fileb st) (x :: premem st)
   else errorf st RUndefined n.
 
-Definition use_ (st : rs) (n : nat) (x : string) : rs :=
+Definition use_ (st : rs) (n : N) (x : string) : rs :=
   if o_global_reassign opts && match env st with None => true | Some _ => false end
   then useToplevel st n x
   else add_use st (container st) {| u_name := x; u_node := n; u_env := env st |}.
 
 (* bindLocal: returns whether the name was already bound in the current block *)
-Definition bindLocal (st : rs) (n : nat) (x : string) : bool * rs :=
+Definition bindLocal (st : rs) (n : N) (x : string) : bool * rs :=
   match env st with
   | None =>
       let ok := mem x (fileb st) in
@@ -138,7 +144,7 @@ Definition bindLocal (st : rs) (n : nat) (x : string) : bool * rs :=
   end.
 (* (the r.use(id) at the end of bindLocal resolves to the binding just made: no check depends on it) *)
 
-Definition bind (st : rs) (n : nat) (x : string) : bool * rs :=
+Definition bind (st : rs) (n : N) (x : string) : bool * rs :=
   match env st with
   | None =>
       let ok := mem x (fileb st) || mem x (globals st) in
@@ -155,8 +161,8 @@ Record astate := { a_seenVar : bool; a_seenKw : bool; a_names : list string; a_n
 (* state of the loop over parameters *)
 Record pstate := {
   p_seenOpt : bool;
-  p_star : option (nat * option (nat * string));
-  p_starstar : option (nat * string);
+  p_star : option (N * option (N * string));
+  p_starstar : option (N * string);
   p_nkw : nat
 }.
 
@@ -173,12 +179,12 @@ Fixpoint expr_ (st : rs) (e : expr) {struct e} : rs :=
       if 256 <=? a_n (snd r) then errorf st RArgTooManyNamed n else st
   | ELambda n ps body =>
       let st := defaults_ st ps in
-      let st := push st true in
+      let st := set_fdepth (push st true) (S (fdepth st)) in
       let outer := loops st in
       let st := set_loops st 0 in
       let st := params_ st {| p_seenOpt := false; p_star := None; p_starstar := None; p_nkw := 0 |} ps in
       let st := expr_ st body in
-      set_loops (pop st) outer
+      set_loops (set_fdepth (pop st) (pred (fdepth st))) outer
   | EComp n iter vars cl body =>
       let st := expr_ st iter in
       let st := push st false in
@@ -288,7 +294,7 @@ with assigns_ (st : rs) (aug : bool) (ls : lhss) {struct ls} : rs :=
   | LCons l r => assigns_ (assign_ st aug l) aug r
   end.
 
-Fixpoint load_items (st : rs) (items : list (nat * string * nat * string)) : rs :=
+Fixpoint load_items (st : rs) (items : list (N * string * N * string)) : rs :=
   match items with
   | [] => st
   | (fn, from, tn, to) :: r =>
@@ -314,12 +320,12 @@ Fixpoint stmt_ (st : rs) (s : stmt) {struct s} : rs :=
   | SDef n nn x ps body =>
       let st := snd (bind st nn x) in
       let st := defaults_ st ps in
-      let st := push st true in
+      let st := set_fdepth (push st true) (S (fdepth st)) in
       let outer := loops st in
       let st := set_loops st 0 in
       let st := params_ st {| p_seenOpt := false; p_star := None; p_starstar := None; p_nkw := 0 |} ps in
       let st := stmts_ st body in
-      set_loops (pop st) outer
+      set_loops (set_fdepth (pop st) (pred (fdepth st))) outer
   | SFor n vars iter body =>
       let st := if negb (o_toplevel_control opts) && negb (in_function st) then errorf st RForToplevel n else st in
       let st := expr_ st iter in
@@ -350,7 +356,7 @@ with stmts_ (st : rs) (ss : stmts) {struct ss} : rs :=
   end.
 
 (* ---- end of module: resolveNonLocalUses / lookupLexical ---- *)
-Fixpoint lookupLexical (fuel : nat) (st : rs) (n : nat) (x : string) (e : option nat) : rs :=
+Fixpoint lookupLexical (fuel : nat) (st : rs) (n : N) (x : string) (e : option nat) : rs :=
   match e with
   | None => useToplevel st n x
   | Some b =>
@@ -401,10 +407,10 @@ Fixpoint resolveNonLocalUses (fuel : nat) (st : rs) (b : option nat) : rs :=
   end.
 
 Definition init : rs :=
-  {| loops := 0; ifstmts := 0; errs := []; blocks := []; env := None; globals := []; fileb := [];
+  {| loops := 0; ifstmts := 0; fdepth := 0; errs := []; blocks := []; env := None; globals := []; fileb := [];
      premem := []; buses := [] |}.
 
-Definition resolve (p : program) : list (rule * nat) :=
+Definition resolve (p : program) : list (rule * N) :=
   let st := stmts_ init p in
   errs (resolveNonLocalUses (S (length (blocks st))) st None).
 
